@@ -48,5 +48,6 @@ def run(ctx):
     from . import helpers_rules as H_
     H_.r16_2_kind_first(ctx, 'R08.15')
     E.r08_16_format_templates(ctx)
+    E.r08_17_resolver_end_anchor(ctx)
     from . import memo_rules as M
     M.memo_sound(ctx, 'R08.M')
